@@ -53,6 +53,9 @@ class ManifestLoader::ManifestLoaderImpl: public ParseActions {
       : data(std::move(data)), parser(std::move(parser)), scope(scope) {}
   };
 
+  /// The maximum depth of nested "include" and "subninja" declarations.
+  static const unsigned maxIncludeDepth = 200;
+
   StringRef workingDirectory;
   StringRef mainFilename;
   ManifestLoaderActions& actions;
@@ -89,6 +92,14 @@ public:
 
   bool enterFile(StringRef filename, Scope& scope,
                  const Token* forToken = nullptr) {
+    // Diagnose runaway nesting, a file which (directly or indirectly) includes
+    // itself would otherwise recurse until the stack is exhausted.
+    if (includeStack.size() >= maxIncludeDepth) {
+      assert(forToken && "nested file load without a token");
+      error("include nesting is too deep (recursive include?)", *forToken);
+      return false;
+    }
+
     SmallString<256> path(filename);
     llvm::sys::fs::make_absolute(workingDirectory, path);
 
